@@ -460,4 +460,158 @@ Section OpenTabProofs.
     intros t [Hsz [_ [_ [Hc Hle]]]]. pose proof (three_quarters_lt (t_size t) Hsz). lia.
   Qed.
 
+  (* ---- the dedup add (strtab_entry_add_string) ------------------------------------------------------ *)
+  Definition absent (es : entries) (n : name) : Prop := forall i v, slot_at es i <> Some (n, v).
+
+  Lemma entry_add_skip : forall k dedup (es : entries) size n v,
+      0 < size -> k <= size ->
+      (forall j, j < k ->
+                 exists m w, slot_at es (pos size (start size n) j) = Some (m, w) /\ dedup && name_eqb m n = false) ->
+      entry_add dedup es size n v =
+      match add_loop dedup (size + 3 - k) es size (pos size (start size n) k) k n with
+      | Slot i => AddOk (upd es i (Some (n, v)))
+      | Existing i => AddExisting i
+      | GiveUp => AddAbort
+      | OutOfFuel => AddOutOfFuel
+      end.
+  Proof.
+    intros k dedup es size n v Hsz Hk Hocc.
+    pose proof (start_lt size n Hsz) as Hs.
+    unfold OpenTabModel.entry_add.
+    replace (size =? 0) with false by (symmetry; apply Nat.eqb_neq; lia).
+    rewrite <- (pos_0 size (start size n) Hs) at 1.
+    rewrite (add_loop_skip k dedup (size + 3) es size (start size n) 0 n); try assumption; try lia.
+    - reflexivity.
+    - intros j Hj. apply Hocc. lia.
+  Qed.
+
+  Lemma add_dedup_absent_ok : forall (es : entries) size n v,
+      0 < size -> length es = size -> nocc es < size -> absent es n ->
+      exists k, k < size /\
+        slot_at es (pos size (start size n) k) = None /\
+        (forall j, j < k -> slot_at es (pos size (start size n) j) <> None) /\
+        entry_add true es size n v = AddOk (upd es (pos size (start size n) k) (Some (n, v))).
+  Proof.
+    intros es size n v Hsz Hlen Hfree Habs.
+    pose proof (start_lt size n Hsz) as Hs.
+    destruct (first_free es size (start size n) Hsz Hlen Hfree Hs) as [k [Hk [Hn Ho]]].
+    exists k. repeat split; try assumption.
+    rewrite (entry_add_skip k true es size n v); try assumption; try lia.
+    - destruct (size + 3 - k) eqn:F; [lia|]. simpl. rewrite Hn. reflexivity.
+    - intros j Hj. specialize (Ho j Hj).
+      destruct (slot_at es (pos size (start size n) j)) as [[m w]|] eqn:E; [|congruence].
+      exists m, w. split; [reflexivity|]. simpl.
+      destruct (name_eqb m n) eqn:F; [|reflexivity].
+      apply name_eqb_spec in F. subst m. exfalso. eapply Habs. eassumption.
+  Qed.
+
+  Lemma add_dedup_absent_spec : forall (es : entries) size n v,
+      0 < size -> length es = size -> nocc es < size -> chain es size -> absent es n ->
+      exists es', entry_add true es size n v = AddOk es' /\
+                  length es' = size /\ chain es' size /\
+                  Permutation (contents es') ((n, v) :: contents es).
+  Proof.
+    intros es size n v Hsz Hlen Hfree Hch Habs.
+    destruct (add_dedup_absent_ok es size n v Hsz Hlen Hfree Habs) as [k [Hk [Hn [Ho Ha]]]].
+    eexists. split; [exact Ha|]. repeat split.
+    - rewrite length_upd. assumption.
+    - apply chain_upd; assumption.
+    - apply contents_upd; [rewrite Hlen; apply pos_lt; assumption|assumption].
+  Qed.
+
+  Lemma add_dedup_present : forall (es : entries) size i n v w,
+      0 < size -> length es = size -> chain es size -> slot_at es i = Some (n, v) ->
+      exists i' v', entry_add true es size n w = AddExisting i' /\ slot_at es i' = Some (n, v').
+  Proof.
+    intros es size i n v w Hsz Hlen Hch Hi.
+    destruct (Hch i n v Hi) as [k0 [Hk0 [Hp Ho]]].
+    set (P := fun k => match slot_at es (pos size (start size n) k) with
+                       | None => False
+                       | Some (m, _) => name_eqb m n = true
+                       end).
+    destruct (least P) with (k0 := k0) as [k [Hk [Pk Hl]]].
+    - intros k. unfold P. destruct (slot_at es (pos size (start size n) k)) as [[m u]|]; [|right; tauto].
+      destruct (name_eqb m n); [left; reflexivity|right; discriminate].
+    - unfold P. rewrite <- Hp, Hi. apply name_eqb_spec. reflexivity.
+    - rewrite (entry_add_skip k true es size n w); try assumption; try lia.
+      + destruct (size + 3 - k) eqn:F; [lia|]. simpl. unfold P in Pk.
+        destruct (slot_at es (pos size (start size n) k)) as [[m u]|] eqn:E; [|contradiction].
+        rewrite Pk. simpl. apply name_eqb_spec in Pk. subst m.
+        exists (pos size (start size n) k), u. split; [reflexivity|assumption].
+      + intros j Hj. specialize (Hl j Hj). unfold P in Hl.
+        specialize (Ho j ltac:(lia)).
+        destruct (slot_at es (pos size (start size n) j)) as [[m u]|]; [|congruence].
+        exists m, u. split; [reflexivity|]. simpl.
+        destruct (name_eqb m n); [exfalso; apply Hl; reflexivity|reflexivity].
+  Qed.
+
+  Lemma absent_notin : forall (es : entries) n, ~ In n (map fst (contents es)) -> absent es n.
+  Proof.
+    intros es n H i v Hs. apply H. apply (in_map fst (contents es) (n, v)).
+    apply In_contents. exists i. assumption.
+  Qed.
+
+  (* rehash with the dedup add: the old entries have pairwise different names, none of them in acc *)
+  Lemma entry_resize_dedup_ok : forall (old acc : entries) size',
+      0 < size' -> length acc = size' -> chain acc size' -> nocc acc + nocc old < size' ->
+      NoDup (map fst (contents old)) ->
+      (forall n, In n (map fst (contents old)) -> ~ In n (map fst (contents acc))) ->
+      exists new, entry_resize true old acc size' = AddOk new /\
+                  length new = size' /\ chain new size' /\
+                  Permutation (contents new) (contents old ++ contents acc).
+  Proof.
+    induction old as [|[[n v]|] t IH]; intros acc size' Hsz Hlen Hch Hfree Hnd Hdis.
+    - exists acc. simpl. repeat split; auto.
+    - simpl. simpl in Hnd. apply NoDup_cons_iff in Hnd. destruct Hnd as [Hx Hnd'].
+      assert (nocc acc < size') as Hf.
+      { unfold OpenTabModel.nocc in *. simpl in Hfree. lia. }
+      assert (absent acc n) as Habs.
+      { apply absent_notin. apply Hdis. simpl. left. reflexivity. }
+      destruct (add_dedup_absent_spec acc size' n v Hsz Hlen Hf Hch Habs) as [acc' [Ha [Hl' [Hc' Hp']]]].
+      rewrite Ha.
+      destruct (IH acc' size' Hsz Hl' Hc') as [new [Hr [Hl'' [Hc'' Hp'']]]].
+      { unfold OpenTabModel.nocc in *. rewrite (Permutation_length Hp'). simpl in *. lia. }
+      { assumption. }
+      { intros m Hm F.
+        apply (Permutation_in (l' := map fst ((n, v) :: contents acc))) in F; [|apply Permutation_map; assumption].
+        simpl in F. destruct F as [F|F].
+        - subst m. apply Hx. assumption.
+        - apply (Hdis m); [simpl; right; assumption|assumption]. }
+      exists new. repeat split; try assumption.
+      eapply perm_trans; [exact Hp''|].
+      eapply perm_trans; [apply Permutation_app_head; exact Hp'|].
+      simpl. apply Permutation_sym. apply Permutation_middle.
+    - simpl. apply IH; try assumption.
+  Qed.
+
+  Lemma tab_resize_dedup_ok : forall t : tab,
+      0 < t_size t -> length (t_entries t) = t_size t -> chain (t_entries t) (t_size t) ->
+      NoDup (map fst (contents (t_entries t))) ->
+      exists t', tab_resize true t = Ok t' /\
+                 0 < t_size t' /\ length (t_entries t') = t_size t' /\ chain (t_entries t') (t_size t') /\
+                 Permutation (contents (t_entries t')) (contents (t_entries t)) /\
+                 t_count t' = t_count t /\
+                 ((t_size t * 3 / 4 < t_count t /\ t_size t' = t_size t * 2) \/
+                  (t_count t <= t_size t * 3 / 4 /\ t' = t)).
+  Proof.
+    intros t Hsz Hlen Hch Hnd. unfold OpenTabModel.tab_resize.
+    destruct (t_size t * 3 / 4 <? t_count t) eqn:E.
+    - apply Nat.ltb_lt in E.
+      destruct (entry_resize_dedup_ok (t_entries t) (entry_new (t_size t * 2)) (t_size t * 2)) as [new [Hr [Hl [Hc Hp]]]].
+      + lia.
+      + apply length_entry_new.
+      + apply chain_entry_new.
+      + unfold OpenTabModel.nocc at 1. rewrite contents_entry_new. simpl.
+        pose proof (nocc_le_length (t_entries t)). lia.
+      + assumption.
+      + intros n _. rewrite contents_entry_new. simpl. tauto.
+      + rewrite Hr. eexists. split; [reflexivity|]. rewrite contents_entry_new, app_nil_r in Hp.
+        cbn [t_size t_count t_entries].
+        split; [lia|]. split; [assumption|]. split; [assumption|]. split; [assumption|].
+        split; [reflexivity|]. left. split; [assumption|reflexivity].
+    - apply Nat.ltb_ge in E. exists t.
+      split; [reflexivity|]. split; [assumption|]. split; [assumption|]. split; [assumption|].
+      split; [apply Permutation_refl|]. split; [reflexivity|]. right. split; [assumption|reflexivity].
+  Qed.
+
 End OpenTabProofs.
